@@ -13,9 +13,12 @@ package main
 import (
 	"encoding/hex"
 	"fmt"
+	"os"
+	"os/exec"
 	"reflect"
 	"runtime"
 	"strings"
+	"sync"
 
 	"github.com/lugu/qiloop/meta/signature"
 	"qv/internal/hx"
@@ -709,5 +712,98 @@ func runC09(res *hx.Result, rng *hx.Rng, tier string, outdir string) {
 		rec(nil, 5)
 		res.Notes = append(res.Notes, fmt.Sprintf("exhaustive: all %d strings of length <= 5 over %q", count, c09Alphabet))
 	}
+	// in a child process: what unsynchronised state inside Parse does under concurrent use may also be a fatal error
+	{
+		cmd := exec.Command(os.Args[0], "c09-concurrent")
+		out, err := cmd.CombinedOutput()
+		lines := strings.Split(strings.TrimSpace(string(out)), "\n")
+		reported := false
+		for _, l := range lines {
+			if strings.HasPrefix(l, "FAIL ") {
+				res.Fail("parse-concurrent", strings.TrimPrefix(l, "FAIL "))
+				reported = true
+			}
+		}
+		if err != nil && !reported {
+			tail := string(out)
+			if len(tail) > 600 {
+				tail = tail[:600]
+			}
+			res.Fail("parse-concurrent", "8 goroutines calling signature.Parse on valid and invalid signatures at once: the process died: "+tail)
+		}
+		res.Count("concurrent-parse", true)
+		res.Dist("concurrent: 8 goroutines x 400 calls of Parse (child process)")
+	}
 	cf.Flush()
+}
+
+func init() {
+	subcommands["c09-concurrent"] = func([]string) {
+		r := hx.NewResult("C09", 1, "quick")
+		c09Concurrent(r, hx.NewRng(1))
+		for _, f := range r.Failures {
+			fmt.Println("FAIL " + strings.ReplaceAll(f.Detail, "\n", " "))
+		}
+		if len(r.Failures) > 0 {
+			os.Exit(1)
+		}
+	}
+}
+
+// c09Concurrent: Parse is a pure function of its argument: called from many goroutines at once (a
+// server parses the signatures its peers send on every connection) every result is what a call
+// alone returns.  Signatures with tuples, structs, maps and objects, valid and not; the expected
+// outcome is computed beforehand, sequentially.
+func c09Concurrent(res *hx.Result, rng *hx.Rng) {
+	base := []string{"(i{sb}[l])", "(is)<P,a,b>", "{s(ii)<Q,x,y>}", "[(s[i])]", "((i)(s))", "(iii)<R,a,b,c>", "[{i(sd)}]", "o", "(io)<S,n,ref>", "[m]",
+		"(i", "(ii)<P,a>", "{is", "(i)<,a>", "[[[(sss)<T,a,b,c>]]]", "(sd)<Point,x,y>", "(dd)<Point,x,y>", "{s[(is)<E,k,v>]}"}
+	type want struct {
+		ok    bool
+		print string
+	}
+	exp := make([]want, len(base))
+	for i, s := range base {
+		if t, err := signature.Parse(s); err == nil {
+			exp[i] = want{true, t.Signature()}
+		}
+	}
+	const workers, rounds = 8, 400
+	fails := make(chan string, workers)
+	var wg sync.WaitGroup
+	for w := 0; w < workers; w++ {
+		wg.Add(1)
+		go func(w int) {
+			defer wg.Done()
+			defer func() {
+				if r := recover(); r != nil {
+					select {
+					case fails <- fmt.Sprintf("signature.Parse panicked when called from %d goroutines at once: %v", workers, r):
+					default:
+					}
+				}
+			}()
+			for k := 0; k < rounds; k++ {
+				i := (w*7 + k*13) % len(base)
+				t, err := signature.Parse(base[i])
+				got := want{}
+				if err == nil {
+					got = want{true, t.Signature()}
+				}
+				if got != exp[i] {
+					select {
+					case fails <- fmt.Sprintf("signature.Parse(%q) called from %d goroutines at once: accepted=%v printed %q; alone: accepted=%v printed %q", base[i], workers, got.ok, got.print, exp[i].ok, exp[i].print):
+					default:
+					}
+					return
+				}
+			}
+		}(w)
+	}
+	wg.Wait()
+	close(fails)
+	for f := range fails {
+		res.Fail("parse-concurrent", f)
+	}
+	res.Count("concurrent-parse", true)
+	res.Dist("concurrent: 8 goroutines x 400 calls of Parse")
 }
